@@ -57,7 +57,7 @@ pub fn apply(op: &str, a: &BigInt, b: &BigInt, p: &BigInt) -> String {
     }
 }
 
-pub fn guarded(op: &str, a: &BigInt, b: &BigInt, p: &BigInt) -> String {
+pub fn guarded_op(op: &str, a: &BigInt, b: &BigInt, p: &BigInt) -> String {
     match catch_unwind(AssertUnwindSafe(|| apply(op, a, b, p))) {
         Ok(s) => s,
         Err(_) => "panic".to_string(),
@@ -70,7 +70,7 @@ fn watched(op: &str, a: &BigInt, b: &BigInt, p: &BigInt) -> String {
     let (tx, rx) = mpsc::channel();
     let (op, a, b, p) = (op.to_string(), a.clone(), b.clone(), p.clone());
     std::thread::spawn(move || {
-        let r = guarded(&op, &a, &b, &p);
+        let r = guarded_op(&op, &a, &b, &p);
         let _ = tx.send(r);
     });
     match rx.recv_timeout(Duration::from_secs(2)) {
@@ -86,7 +86,7 @@ pub fn run_line(line: &str) -> String {
     }
     let (a, b, p) = (hex(t[1]), hex(t[2]), hex(t[3]));
     let big_count = (t[0] == "shl" || t[0] == "shr") && b.bits() > 20;
-    let r = if big_count { watched(t[0], &a, &b, &p) } else { guarded(t[0], &a, &b, &p) };
+    let r = if big_count { watched(t[0], &a, &b, &p) } else { guarded_op(t[0], &a, &b, &p) };
     format!("{} {} {} {} = {}", t[0], t[1], t[2], t[3], r)
 }
 
@@ -96,9 +96,24 @@ pub fn sweep<W: Write>(p: u64, out: &mut W) {
     for op in OPS.iter() {
         for a in 0..p {
             for b in 0..p {
-                let r = guarded(op, &BigInt::from(a), &BigInt::from(b), &pb);
+                let r = guarded_op(op, &BigInt::from(a), &BigInt::from(b), &pb);
                 writeln!(out, "{} {:x} {:x} {:x} = {}", op, a, b, p, r).unwrap();
             }
         }
+    }
+}
+
+fn main() {
+    verif_harness::silence_panics();
+    let args: Vec<String> = std::env::args().collect();
+    if args.len() >= 2 && args[1] == "sweep" {
+        let stdout = std::io::stdout();
+        let mut out = std::io::BufWriter::new(stdout.lock());
+        for p in &args[2..] {
+            sweep(p.parse().unwrap(), &mut out);
+        }
+        out.flush().unwrap();
+    } else {
+        verif_harness::each_line(run_line);
     }
 }
